@@ -130,7 +130,15 @@ def process(ctx, acc, tag, scns, rnd, ruletext, rng, corrupt=None):
         if r.get("panic"):
             acc.cand(dict(carrier=scn["carrier"], panic=True), "panic %r on %s" % (r["panic"], json.dumps(scn)), rep)
             continue
-        obs, hasinst, other = fs.g_abstract(fs.split_clauses(r), names, scn["carrier"])
+        clauses = fs.split_clauses(r)
+        if c.get("deco_required") is not None:
+            clauses, nreq = fs.g_strip_required(clauses)
+            if nreq != c["deco_required"]:
+                acc.cand(dict(carrier=scn["carrier"], what="required_next_to_group", expected=c["deco_required"], observed=nreq),
+                         "members that also carry required: %d required clauses expected (one per empty member), %d found: scenario %s (rules via %s, api %s); real error: %r" % (
+                             c["deco_required"], nreq, json.dumps(scn), v, c["api"], r.get("err")), rep)
+                continue
+        obs, hasinst, other = fs.g_abstract(clauses, names, scn["carrier"])
         if src == "gen":
             exp = s["exp"]
             if exp:
@@ -226,7 +234,13 @@ def replay(ctx):
     if res.get("panic"):
         ctx.candidate(dict(carrier=scn["carrier"], panic=True), "panic %r" % res["panic"], r)
     else:
-        obs, hasinst, other = fs.g_abstract(fs.split_clauses(res), names, scn["carrier"])
+        clauses = fs.split_clauses(res)
+        if c.get("deco_required") is not None:
+            clauses, nreq = fs.g_strip_required(clauses)
+            if nreq != c["deco_required"]:
+                ctx.candidate(dict(carrier=scn["carrier"], what="required_next_to_group", expected=c["deco_required"], observed=nreq),
+                              "replayed: %d required clauses expected, %d found: %r" % (c["deco_required"], nreq, res.get("err")), r)
+        obs, hasinst, other = fs.g_abstract(clauses, names, scn["carrier"])
         bad = fs.judge(ctx, "Judge_Groups", [dict(id=c["id"], scn=scn, obs=obs, hasinst=hasinst)], "replay", shards=1)
         ctx.log("real error: %r" % res.get("err"))
         if bad or other:
